@@ -1050,6 +1050,8 @@ func runC09() {
 		"server-side receive loop keeps calling Receive after an error (channel_broker.go stops at the first error); this only adds behaviour to check")
 
 	var wg sync.WaitGroup
+	var failMu sync.Mutex
+	var failed []string
 	ch := make(chan c09Job)
 	for w := 0; w < evid.Workers(); w++ {
 		wg.Add(1)
@@ -1057,7 +1059,9 @@ func runC09() {
 			defer wg.Done()
 			for j := range ch {
 				if st := c09Supervise(r, j, false); st != "" {
-					evid.EngineError("C09", "%s", st)
+					failMu.Lock()
+					failed = append(failed, st)
+					failMu.Unlock()
 				}
 			}
 		}()
@@ -1071,6 +1075,14 @@ func runC09() {
 	}
 	close(ch)
 	wg.Wait()
+	if len(failed) > 0 {
+		// without a violation in hand an incomplete run is a failure of the machinery;
+		// with violations they are reported and the run is marked incomplete
+		if r.ViolationCount() == 0 {
+			evid.EngineError("C09", "%d job(s) could not be completed; first: %s", len(failed), failed[0])
+		}
+		r.Capped(fmt.Sprintf("%d job(s) could not be completed (scaffolding failed three times in a row), first: %s", len(failed), firstLine(failed[0])))
+	}
 	r.Set("cells", len(cells))
 	r.Finish()
 }
@@ -1078,7 +1090,7 @@ func runC09() {
 // c09Supervise runs one job in sub-processes, restarting behind a crash.
 // It returns a non-empty string if the machinery failed.
 func c09Supervise(r *evid.Run, job c09Job, verbose bool) string {
-	restarts := 0
+	restarts, stalls, lastDone := 0, 0, -1
 	for {
 		jb, _ := json.Marshal(job)
 		// re-execute this very binary image, even if its file name has been replaced meanwhile
@@ -1126,6 +1138,7 @@ func c09Supervise(r *evid.Run, job c09Job, verbose bool) string {
 					continue
 				}
 				inflight = nil
+				lastDone = res.Idx
 				c09Record(r, job.Cell, res)
 				if verbose {
 					fmt.Printf("case %v\n  outcome %+v\n  signature %q\n", res.Mut, res.Outcome, res.Sig)
@@ -1142,11 +1155,24 @@ func c09Supervise(r *evid.Run, job c09Job, verbose bool) string {
 		if done && werr == nil {
 			return ""
 		}
-		if engine != "" {
-			return fmt.Sprintf("job %+v: %s\n%s", job, engine, stderr.String())
-		}
-		if inflight == nil {
-			return fmt.Sprintf("job %+v: sub-process died outside a case: %v; last output line: %s\n%s", job, werr, lastLine, stderr.String())
+		if engine != "" || inflight == nil {
+			// the scaffolding failed between two cases (e.g. a handshake that does not
+			// finish on a starved machine): carry on behind the last finished case in a
+			// fresh process; give up after three attempts without progress
+			why := engine
+			if why == "" {
+				why = fmt.Sprintf("sub-process died outside a case: %v; last output line: %s", werr, lastLine)
+			}
+			if lastDone >= job.From {
+				job.From = lastDone + 1
+				stalls = 0
+			} else {
+				stalls++
+			}
+			if stalls >= 3 || job.Single != nil {
+				return fmt.Sprintf("job %+v: %s\n%s", job, why, stderr.String())
+			}
+			continue
 		}
 		// the receiver process died while handling the case in flight
 		fn := topRepoFuncInTrace(stderr.String())
